@@ -52,7 +52,97 @@ def api_stmt(fn, word):
     return fn.body[0]
 
 
+def check_table_strip(ctx, rule='R-TABLESTRIP'):
+    """the tracer and diagnostic tables are fixed-width text: a line is cut at constant columns.  Stripping the whole text of blanks
+    removes the left padding of its first line, so a table that starts with a data line (no leading comment) is cut one field off."""
+    ctx.rule(rule, 'bpch readers: the text of a fixed-width table is not stripped of leading blanks before its lines are cut at constant columns')
+    mod = ctx.src.mod(B)
+    n = 0
+    for q, fn in sorted(mod.functions.items()):
+        if '<locals>' in q:
+            continue
+        for x in ast.walk(fn):
+            if not (isinstance(x, ast.Call) and isinstance(x.func, ast.Attribute) and x.func.attr in ('strip', 'lstrip')):
+                continue
+            recv = x.func.value
+            if not (isinstance(recv, ast.Call) and isinstance(recv.func, ast.Attribute) and recv.func.attr == 'read'):
+                continue
+            # is the text cut into lines that are sliced at constant columns?
+            cols = [y for y in ast.walk(fn) if isinstance(y, ast.Subscript) and isinstance(y.slice, ast.Slice) and isinstance(y.value, ast.Name)
+                    and any(isinstance(b, ast.Constant) and isinstance(b.value, int) and b.value > 1 for b in (y.slice.lower, y.slice.upper) if b is not None)]
+            if not cols:
+                continue
+            n += 1
+            chars = const_str(x.args[0]) if x.args else None
+            where = 'src/PseudoNetCDF/%s %s' % (B, q)
+            if not x.args or (chars is not None and (' ' in chars or '\t' in chars)):
+                ctx.violation(Finding(rule, B, q, api.stmt_of(x), '%s removes the left padding of the first line of the table: when the table starts with a data line (no leading comment) its '
+                                      'fixed-width columns are cut one field off and int() raises, although the same table with a comment line in front reads' % norm(x)[:50]), oid='%s:%s' % (q, norm(recv)[:30]))
+            else:
+                ctx.ok(rule, '%s:%s' % (q, norm(recv)[:30]), where, '%s keeps blanks' % norm(x)[:50])
+    ctx.count('stripped table texts', n)
+
+
+def check_repeat_ends_step(ctx, rule='R-REPEATEND'):
+    """header walk of bpch1: a block whose (category, tracer) repeats the first block of the file opens the next time step; its type
+    and key must not be added to the layout of one step - also when that block happens to be the last one of the file (one tracer,
+    two time blocks)."""
+    from .. import paths as _paths
+    ctx.rule(rule, 'bpch1 header walk: on every path on which the block repeats the first (category, tracer) nothing is appended to the per-step layout')
+    mod = ctx.src.mod(B)
+    fn = mod.func('bpch1.__init__')
+    where = 'src/PseudoNetCDF/%s bpch1.__init__' % B
+    loops = [st for st in iter_stmts(fn.body) if isinstance(st, ast.While) and 'first_header' in norm(st.test)]
+    if not loops:
+        ctx.undec(rule, 'header walk', where, 'loop over the block headers not found')
+        return
+    lp = loops[0]
+
+    def is_repeat(e):
+        """+1: e says the block repeats the first one, -1: e says it does not, 0: something else"""
+        if isinstance(e, ast.Compare) and len(e.ops) == 1 and isinstance(e.ops[0], (ast.Eq, ast.NotEq)):
+            a, b = norm(e.left), norm(e.comparators[0])
+            if 'first_header' in a + b and 'header[8]' in a + b and ('first_header[8]' in a or 'first_header[8]' in b):
+                return 1 if isinstance(e.ops[0], ast.Eq) else -1
+        return 0
+    npaths, bad = 0, None
+    for pth in _paths.enumerate_paths(lp.body, limit=60000):
+        ex = _paths.expand(pth)
+        if not ex.feasible:
+            continue
+        rep_pol = None
+        contradictory = False
+        firstnone = None
+        for e0, x, pol in ex.conds:
+            r = is_repeat(x)
+            if r:
+                val = pol if r == 1 else (not pol)
+                if rep_pol is not None and rep_pol != val:
+                    contradictory = True
+                rep_pol = val
+            if norm(x) == 'first_header is None':
+                firstnone = pol
+        if contradictory or rep_pol is not True or firstnone is True:
+            continue
+        npaths += 1
+        apps = [c for st in pth.stmts for c in ast.walk(st) if isinstance(c, ast.Call) and isinstance(c.func, ast.Attribute) and c.func.attr == 'append'
+                and isinstance(c.func.value, ast.Name) and c.func.value.id in ('keys', 'data_types')]
+        if apps and bad is None:
+            bad = (apps[0], pth)
+    if bad:
+        c, pth = bad
+        ctx.violation(Finding(rule, B, 'bpch1.__init__', api.stmt_of(c), 'on a path on which the block repeats the first (category, tracer) - %s - its type or key is appended to the layout of one time step: '
+                              'a file with one tracer and exactly two time blocks then has the same field twice and cannot be opened (ValueError), while the block-walking reader reads it'
+                              % ', '.join('%s is %s' % (norm(e)[:30], 'true' if p_ else 'false') for e, p_ in pth.conds[-2:])))
+    elif npaths:
+        ctx.ok(rule, 'header walk', where, '%d paths with a repeating block, none appends' % npaths)
+    else:
+        ctx.undec(rule, 'header walk', where, 'no path decides whether the block repeats the first one')
+
+
 def run(ctx):
+    check_table_strip(ctx)
+    check_repeat_ends_step(ctx)
     for r, d in (('R-BPCHTABLE', 'reader, writer and second reader agree on the block layouts'),
                  ('R-FIELDROLE', 'positional reader fields f7..f14 = writer fields category..dim; attribute maps inverse'),
                  ('R-SCALEINV', 'scale applied (reader) and removed (writer) on mirrored branches, same key, input untouched'),
